@@ -421,6 +421,19 @@ def add_recurrent_mutations(ts, rng, k=3):
     return tables.tree_sequence(), added
 
 
+def drop_singletons(ts):
+    """remove every mutation that sits directly above a sample node (and sites left empty)"""
+    t = ts.dump_tables()
+    is_s = (ts.nodes_flags & tskit.NODE_IS_SAMPLE) > 0
+    keep = ~is_s[ts.mutations_node]
+    t.mutations.keep_rows(keep)
+    t.mutations.time = np.full(t.mutations.num_rows, tskit.UNKNOWN_TIME)
+    t.sort()
+    t.build_index()
+    t.compute_mutation_parents()
+    return t.tree_sequence()
+
+
 def strip_mutation_times(ts):
     tables = ts.dump_tables()
     tables.mutations.time = np.full(tables.mutations.num_rows, tskit.UNKNOWN_TIME)
